@@ -122,18 +122,27 @@ CHECKS.update({
        "the correspondence only; one known finding (native arguments evaluated in path-tracking mode).",
   ref="DESIGN.md §5 C19, docs/C19.md", tech=TECH),
  "C20": dict(
-  text=("Coq transcription of stack.go/scope_stack.go (array with index/limit and next links) and of the scope-frame logic of "
-        "opcallrec/opscope/opret. 9 theorems (named _partial; C20_full stays visible): Stack_refines (the array stack refines a "
+  text=("Coq transcription of stack.go/scope_stack.go (array with index/limit and next links), of the scope-frame logic of "
+        "opcallrec/opscope/opret, and of execute.go's Next loop with all JSON values erased (c20/EVM.v: every data-dependent "
+        "choice nondeterministic). 19 theorems (named _partial; C20_full stays visible): Stack_refines (the array stack refines a "
         "persistent list stack for every LIFO-disciplined push/pop/save/restore sequence and every pending saved view is "
-        "unchanged), stack_len_bound and push_after_pop_reuses (the data array does not grow when slots above the limit are "
-        "reused), tailcall_frame_reuse (a tail call with no pending fork above the frame leaves scope index and offset "
-        "unchanged), tailcall_under_fork_grows, generic loop_bound and its instance. Observer on the implementation: peak "
-        "footprint (forks, stack/scopes/paths data, values) sampled at every instruction at n and 8n for 75 fixed iteration/"
-        "tail-recursion forms plus generated ones must not grow; random LIFO op sequences on the real stacks vs the extracted model."),
-  note=TRUST + "Closed under the global context. PARTIAL: the bound for every compiled program is not a theorem (it needs a VM "
-       "model instantiated on real code); retained heap after GC is a runtime notion outside the model. Tail position is read as "
-       "'no pending choice point of the same activation'. Two known findings (mutual tail recursion through nested definitions).",
-  ref="DESIGN.md §5 C20, docs/C20.md", tech=TECH),
+        "unchanged), stack_len_bound, push_after_pop_reuses, tailcall_frame_reuse, tailcall_under_fork_grows, generic loop_bound; "
+        "abs_sound / certify_sound: a VERIFIED CERTIFIER - whenever the closed-set exploration of the erased machine (or of the "
+        "abstract interpreter of coq/c01vm's VM) succeeds on a code list, the footprint (forks + stack.data + scopes.data + values) "
+        "of every reachable state is bounded by the computed constant, for every loop count, input and native behaviour; "
+        "instantiated inside Coq on the code the CURRENT compiler emits for 30 iteration / tail-recursion forms (regenerated "
+        "every run) and 20 forms of fragment F. On every run the extracted certifier is also applied to the compiled code of EVERY "
+        "measured program (75 fixed forms, 48 deep nestings, generated tail-recursive definitions: 204 of 222 certified in the quick "
+        "tier): a per-program proof of the bound; choice-point-free tail-recursive definitions MUST be certified. Observers on the "
+        "implementation: peak footprint sampled at every instruction at n and 8n must not grow and must lie within the certified "
+        "bound; every instruction fetch of the implementation must be a path of the erased machine; random LIFO op sequences on "
+        "the real stacks vs the extracted model."),
+  note=TRUST + "Closed under the global context. PARTIAL: the bound is proved per program by the verified certifier (all listed "
+       "forms and every certified generated program), not once for every tail-recursive definition a user can write; the erased "
+       "machine is tied to execute.go by per-instruction trace inclusion, not by proof; retained heap after GC is a runtime notion "
+       "outside the model. Tail position is read as 'no pending choice point of the same activation'. Two known findings (mutual "
+       "tail recursion through nested definitions).",
+  ref="DESIGN.md §5 C20, docs/C20.md", tech="proof (verified bound certifier applied to the code the current compiler emits) + trace correspondence"),
 })
 
 CHECKS.update({
@@ -150,10 +159,19 @@ CHECKS.update({
         "fuel (no cycle), frame for all unrelated values, invariant preserved), invariant_acyclic, value-level get/set and commute "
         "laws, delpaths descending; the unconditional statement is REFUTED by theorems with the D5/D9 witnesses (each side "
         "condition is necessary) - recorded as known findings. Correspondence: natives through a hook on random aliased heaps, "
-        "result and post-state of every pre-existing container vs the extracted heap model."),
-  note=TRUST + "Closed under the global context. PARTIAL: slices followed by further components and heap-level delpaths are "
-       "corresponded, not proved; the jq-level statements (path tracking in the VM) are decided by oracle (A) and by the C01 "
-       "semantics stream. Three known findings (D5 cyclic value, D9 shared embedding, D10 string slice path).",
+        "result and post-state of every pre-existing container vs the extracted heap model. (C) C02b, over the reference semantics "
+        "coq/sem (tied to the implementation by the C01 stream): path-tracking soundness as a theorem, unbounded in program, "
+        "input and fuel, for the navigation fragment (identity, constant and computed keys, constant slices, iteration, suffix "
+        "lists, optional forms, getpath, pipe, comma, empty, error, if, select, `as` bindings, try; extended as recorded in "
+        "docs/C02.md): path(p) and p emit the same number of outputs, end the same way, and navigating the input along the k-th "
+        "path gives the k-th value; navigation from a computed value inside path(..) raises the invalid-path error and never "
+        "calls its consumer."),
+  note=TRUST + "(B) closed under the global context; (C) depends on the Reals axioms Flocq's binary64 brings into coq/sem "
+       "(ClassicalDedekindReals.sig_forall_dec, sig_not_dec, Classical_Prop.classic, functional_extensionality_dep). PARTIAL: slices "
+       "followed by further components and heap-level delpaths are corresponded, not proved; path tracking of the VM itself is "
+       "decided by oracle (A) and by the C01 semantics stream (the theorem is about the reference semantics); path constructs "
+       "outside the proved fragment are listed in props/C02b.v. Three known findings (D5 cyclic value, D9 shared embedding, D10 "
+       "string slice path).",
   ref="DESIGN.md §5 C02, docs/C02.md", tech=TECH),
  "C05": dict(
   text=("Coq heap model with EXPLICIT WRITE AND ALLOCATION LOGS of the natives that build or share containers (array construction "
